@@ -84,13 +84,13 @@ func stressWorkerMain(args []string) {
 	r := NewRNG(uint64(seed))
 	c := girc.New(girc.Config{Server: "irc.example.org", Port: 6667, Nick: "me", User: "me", Name: "me", AllowFlood: true,
 		RecoverFunc: func(c *girc.Client, e *girc.HandlerError) {}})
-	var stop int32
+	var stop, sendersOff int32
 	if mode == "stsack" {
 		stop = 1 // a quiet scenario: only the library's own goroutines
 	}
 	var progress int64
 	var wg sync.WaitGroup
-	go func() { // heartbeat for the parent's watchdog: the scenario is alive as long as this number moves
+	go func() { // heartbeat for the parent's watchdog: the scenario is alive as long as the STREAM moves (lines handed to the client)
 		for {
 			time.Sleep(500 * time.Millisecond)
 			fmt.Printf("progress %d\n", atomic.LoadInt64(&progress))
@@ -102,7 +102,6 @@ func stressWorkerMain(args []string) {
 			defer wg.Done()
 			for i := 0; atomic.LoadInt32(&stop) == 0; i++ {
 				f(i)
-				atomic.AddInt64(&progress, 1)
 				time.Sleep(time.Duration(50+i%7*30) * time.Microsecond) // yield: the point is interleaving, not starvation
 			}
 		}()
@@ -128,6 +127,7 @@ func stressWorkerMain(args []string) {
 	c.Handlers.Add(girc.JOIN, func(c *girc.Client, e girc.Event) { c.Cmd.Who(e.Params[0]) })
 
 	runConn := func(lines []string, closeMid bool) {
+		atomic.StoreInt32(&sendersOff, 0)
 		cli, srv := net.Pipe()
 		done := make(chan error, 1)
 		go func() { done <- c.MockConnect(cli) }()
@@ -146,6 +146,10 @@ func stressWorkerMain(args []string) {
 		srv.Write([]byte(":srv 001 me :Welcome\r\n"))
 		for i, l := range lines {
 			if closeMid && i == len(lines)/2 {
+				// (the senders pause first: once sendLoop has gone, every write on a FULL queue waits its whole 30 s —
+				// O7, bounded but slow — and with 25 queued events still to be flushed the scenario would take minutes)
+				atomic.StoreInt32(&sendersOff, 1)
+				time.Sleep(2 * time.Millisecond)
 				go c.Close()
 			}
 			if l == "SLEEP" {
@@ -161,6 +165,7 @@ func stressWorkerMain(args []string) {
 		if !closeMid {
 			srv.SetWriteDeadline(time.Now().Add(5 * time.Second))
 			srv.Write([]byte("PING :end\r\n"))
+			atomic.StoreInt32(&sendersOff, 1) // see above
 			time.Sleep(20 * time.Millisecond)
 			c.Close()
 		}
@@ -214,6 +219,9 @@ func stressWorkerMain(args []string) {
 	})
 	// senders
 	spawn(func(i int) {
+		if atomic.LoadInt32(&sendersOff) == 1 {
+			return
+		}
 		switch i % 6 {
 		case 0:
 			c.Cmd.Message("#a", "hello there")
@@ -308,6 +316,9 @@ func init() {
 	props["C12"] = runC12
 	runners["stress12"] = func(c *Ctx, in map[string]string) {
 		hin := hexIn(in)
+		if c.Wedges >= 2 {
+			return // two scenarios have already stalled (reported); each further one would cost another watchdog period
+		}
 		dir, err := os.MkdirTemp("", "race12-")
 		if err != nil {
 			c.R.Mismatch("stress.tmp", hin, err.Error(), "")
@@ -359,9 +370,9 @@ func init() {
 			case werr = <-done:
 				break wait
 			case <-time.After(time.Second):
-				stalled := time.Since(lastProgress.Load().(time.Time)) > 40*time.Second
-				if stalled || time.Since(start) > 400*time.Second {
-					// watchdog: nothing has moved for 40 s (or the scenario takes absurdly long): dump goroutines, then kill
+				stalled := time.Since(lastProgress.Load().(time.Time)) > 100*time.Second // (a write on a full queue after sendLoop has gone waits its full 30 s, several times over: O7)
+				if stalled || time.Since(start) > 240*time.Second {
+					// watchdog: nothing has moved for 100 s (or the scenario takes absurdly long): dump goroutines, then kill
 					cmd.Process.Signal(syscall.SIGQUIT)
 					select {
 					case <-done:
@@ -373,6 +384,7 @@ func init() {
 					sbMu.Lock()
 					out := sb.String()
 					sbMu.Unlock()
+					c.Wedges++
 					c.R.Violation("stress12.deadlock", hin, tailStr(out, 8000), "", fmt.Sprintf("the stress scenario stopped making progress (stalled=%v, %.0f s): some goroutine blocks forever (goroutine dump attached)", stalled, time.Since(start).Seconds()))
 					return
 				}
@@ -414,6 +426,14 @@ func tailStr(s string, n int) string {
 func runC12(c *Ctx) {
 	c.R.Rule = "race-detector-instrumented stress (worker = the harness built with -race): an event stream of joins, parts, nick/mode changes, NAMES, CAP NEW/DEL/ACK, KICK/QUIT/TOPIC/WHOX/AWAY and own-nick changes against concurrent readers of every getter (and of the snapshots' methods), senders, registrars (Add/AddBg/AddTmp/Remove/Clear/Count/Len, CTCP.Set/Clear), handlers that call back into the client, and a closer (at the end, mid-stream, and across three reconnects), under GOMAXPROCS 1/2/16; a detector report or a watchdog timeout is a violation; non-trivial = every scenario"
 	n := 0
+	// the deterministic callback scenarios first (they are quick and name the blocked call), then the stress
+	for _, ev := range []string{"CTCP", "HANDLERS", girc.STS_ERR_FALLBACK, girc.INITIALIZED, girc.DISCONNECTED} {
+		c.run("callback12", map[string]string{"event": ev})
+		n++
+	}
+	c.run("stress12", map[string]string{"seed": "1", "procs": "4", "lines": "0", "mode": "connected"})
+	c.run("stress12", map[string]string{"seed": "1", "procs": "4", "lines": "0", "mode": "stsack"})
+	n += 2
 	for _, mode := range []string{"stream", "closemid", "reconnect"} {
 		for _, procs := range []string{"1", "2", "16"} {
 			if c.Scale == 1 && (mode == "reconnect" && procs != "16" || mode == "closemid" && procs == "2") {
@@ -431,13 +451,6 @@ func runC12(c *Ctx) {
 				}
 			}
 		}
-	}
-	c.run("stress12", map[string]string{"seed": "1", "procs": "4", "lines": "0", "mode": "connected"})
-	c.run("stress12", map[string]string{"seed": "1", "procs": "4", "lines": "0", "mode": "stsack"})
-	n += 2
-	for _, ev := range []string{"CTCP", girc.STS_ERR_FALLBACK, girc.INITIALIZED, girc.DISCONNECTED} {
-		c.run("callback12", map[string]string{"event": ev})
-		n++
 	}
 	c.R.Traces = n
 }
@@ -486,6 +499,36 @@ func init() {
 				c.R.Mismatch("callback12.not_emitted", hin, "the CTCP handler was not invoked", "")
 			}
 			c.R.Count("callback/CTCP", true, "callback")
+			return
+		}
+		if in["event"] == "HANDLERS" {
+			// a foreground handler that registers and removes handlers itself (the usual way to chain requests): the
+			// dispatcher must not hold the handler table's lock while handlers run
+			cl2 := girc.New(girc.Config{Server: "irc.example.org", Port: 6667, Nick: "me", User: "me", Name: "me", AllowFlood: true})
+			var ran int32
+			cl2.Handlers.Add(girc.PRIVMSG, func(c *girc.Client, e girc.Event) {
+				id := c.Handlers.Add(girc.NOTICE, func(c *girc.Client, e girc.Event) {})
+				c.Handlers.AddBg(girc.INVITE, func(c *girc.Client, e girc.Event) {})
+				cuid, _ := c.Handlers.AddTmp(girc.NOTICE, 0, func(c *girc.Client, e girc.Event) bool { return true })
+				c.Handlers.Remove(id)
+				c.Handlers.Remove(cuid)
+				c.Handlers.Clear(girc.INVITE)
+				_ = c.Handlers.Len()
+				atomic.AddInt32(&ran, 1)
+			})
+			d, err := newDispClientFor(cl2)
+			if err != nil {
+				c.R.Mismatch("callback12.setup", hin, err.Error(), "")
+				return
+			}
+			d.send(":bob!b@h PRIVMSG me :go")
+			ok := d.barrier("afterhandlers")
+			go d.close()
+			if !ok || atomic.LoadInt32(&ran) == 0 {
+				c.R.Violation("callback12.deadlock", hin, fmt.Sprintf("no PONG after a PRIVMSG whose foreground handler calls Handlers.Add/AddBg/AddTmp/Remove/Clear (handler finished: %v): the client stopped processing events", atomic.LoadInt32(&ran) > 0), "", "handlers may call back into the client; none blocks forever")
+				return
+			}
+			c.R.Count("callback/HANDLERS", true, "callback")
 			return
 		}
 		switch in["event"] {
